@@ -19,6 +19,11 @@ func (m *Message) SkipClassAdRaw(ctx context.Context) error {
 		return fmt.Errorf("failed to read expression count: %w", err)
 	}
 	for i := 0; i < numExprs; i++ {
+		// See GetClassAdRawBody: an over-stated count must not spin past the end of
+		// the message.
+		if m.isEOM && m.buffer.Len() == 0 {
+			return fmt.Errorf("message ended after %d of %d expressions", i, numExprs)
+		}
 		isMarker, err := m.skipExpr(ctx)
 		if err != nil {
 			return fmt.Errorf("failed to skip expression %d (expected %d): %w", i, numExprs, err)
